@@ -243,6 +243,70 @@ func (s *Sim) freeRun() {
 	s.emit("End")
 }
 
+// gridRun (C12): one caller, timeout T, n tries; an acceptable response arrives in try k at the given
+// offset within the try (0 = right after the transmission, 1 = middle, 2 = last tick before the timeout);
+// k = 0: no response at all. Urgent policy throughout.
+func (s *Sim) gridRun(k, where int) {
+	s.start(1)
+	elapsed := 0
+	target := -1
+	if k > 0 {
+		tryStart := s.cfg.T * ((1 << uint(k-1)) - 1)
+		tryLen := s.cfg.T * (1 << uint(k-1))
+		target = tryStart + []int{0, tryLen / 2, tryLen - 1}[where]
+	}
+	for step := 0; step < 100000 && !s.allReturned(); step++ {
+		if rs := s.releasableRoles(); len(rs) > 0 {
+			s.release(rs[0])
+			continue
+		}
+		if elapsed == target {
+			s.inject(s.cfg.Xid[0], "good")
+			target = -1
+			continue
+		}
+		if s.cfg.Tries < 0 && elapsed > s.cfg.T*40 {
+			s.ctxCancel(1)
+			continue
+		}
+		s.tick()
+		elapsed++
+	}
+}
+
+// streamRun (C11): a datagram with the call's id that the matcher rejects arrives at every tick for as
+// long as the call is running (it must not extend the call beyond its budget).
+func (s *Sim) streamRun() {
+	for c := range s.cfg.Xid {
+		s.start(c + 1)
+	}
+	for step := 0; step < 100000 && !s.allReturned(); step++ {
+		if rs := s.releasableRoles(); len(rs) > 0 {
+			s.release(rs[s.rng.Intn(len(rs))])
+			continue
+		}
+		if step > 20000 {
+			break
+		}
+		s.tick()
+		for _, x := range s.cfg.Xid {
+			s.inject(x, "rej")
+			for { // let the datagram be processed at this very instant
+				rs := s.releasableRoles()
+				if len(rs) == 0 {
+					break
+				}
+				s.release(rs[s.rng.Intn(len(rs))])
+			}
+		}
+		if s.cfg.Tries < 0 && s.now() > s.cfg.T*20 {
+			for c := range s.cfg.Xid {
+				s.ctxCancel(c + 1)
+			}
+		}
+	}
+}
+
 type schedule struct {
 	Cfg   Cfg    `json:"cfg"`
 	Steps []step `json:"steps"`
@@ -353,6 +417,39 @@ func TestSim(t *testing.T) {
 		}
 		runOne(cfg, "random", func(s *Sim) { s.randomRun(nd, urgent, rng.Intn(3) == 0, rng.Intn(2) == 0) })
 		stats["random_runs"]++
+	}
+	// (2b) C11 / C12: the retransmission grid and endless streams of rejected datagrams
+	if mode == "c11" {
+		for _, v4 := range []bool{true, false} {
+			for _, T := range []int{1, 2, 5} {
+				for n := -1; n <= 6; n++ {
+					kmax := n
+					if n < 0 {
+						kmax = 3
+					}
+					for k := 0; k <= kmax; k++ {
+						for where := 0; where < 3; where++ {
+							if k == 0 && where > 0 {
+								continue
+							}
+							if envInt("VH_GRID", 1) == 0 && (n > 3 || (where == 1 && T > 1)) {
+								continue // quick: a slice of the grid
+							}
+							cfg := Cfg{T: T, Tries: n, BufCap: 5, V4: v4, Timed: true, Urgent: true, Mode: "grid", Xid: []int{7}}
+							kk, ww := k, where
+							runOne(cfg, "grid", func(s *Sim) { s.gridRun(kk, ww) })
+							stats["grid_runs"]++
+						}
+					}
+				}
+			}
+			for i := 0; i < 6; i++ {
+				cfg := Cfg{T: 1 + rng.Intn(3), Tries: []int{1, 2, 3, 4, -1}[rng.Intn(5)], BufCap: []int{1, 5}[rng.Intn(2)], V4: v4, Timed: true, Urgent: true,
+					Mode: "stream", Xid: [][]int{{7}, {7, 8}, {7, 7}}[rng.Intn(3)]}
+				runOne(cfg, "stream", func(s *Sim) { s.streamRun() })
+				stats["stream_runs"]++
+			}
+		}
 	}
 	// (3) free-running races on the registration critical section
 	for i := 0; i < envInt("VH_FREE", 0); i++ {
